@@ -6,7 +6,7 @@ Decided (structural, format pairing):
         edge serialize_bytes(as_bytes) / deserialize_bytes(visitor taking exactly 32 bytes).
  R2 K2  visit_bytes converts with try_into and errors on a length mismatch; visit_seq errors
         when the sequence ends early; visit_str goes through FromStr.
- R3 K5  Display prints to_base58() unchanged (no trim/slice/replace in between); FromStr/decode use base58 String32::decode; to_base58 encodes
+ R3 K5  Display prints to_base58() unchanged (no trim/slice/replace in between); FromStr/decode use base58 String32::decode on the caller's text unchanged (no strip/trim/slice before it); to_base58 encodes
         the `bytes` field.
  R4 K4  no may-panic site reachable from FromStr / Deserialize / visitors / decode / Display.
 Not decided: bijectivity of spideroak-base58's 32-byte codec (external, trusted)."""
@@ -132,6 +132,16 @@ def run(F, rep, tier):
     rep.check(any(c.is_("Id::decode") for c in fs.calls), "FromStr|decode", "K5 sibling agreement", "FromStr delegates to Id::decode", site=fs.site())
     rep.check(any(c.is_("String32::decode") for c in dec.calls) and any(c.is_("Id::from_bytes") for c in dec.calls),
               "decode|String32", "K5 sibling agreement", "decode = String32::decode then from_bytes", site=dec.site())
+    # ... and the text handed to the decoder is the caller's text as it is (mirror of the Display rule): in base58 every
+    # character, the leading ones included, is a significant digit
+    drew = sorted({c.name for c in dec.calls if c.name and c.name not in PLUMBING and not c.exp
+                   and (c.path or "").startswith(("core::str", "alloc::str", "alloc::string", "core::slice", "alloc::vec", "core::ops::index"))})
+    sd = [c for c in dec.calls if c.is_("String32::decode")]
+    arg_ok = bool(sd) and "arg:1" in dec.origins(sd[0].args[0], through_calls=("as_ref", "borrow", "as_bytes", "deref"))
+    rep.check(not drew and arg_ok, "decode|decodes-the-whole-text", "K5 sibling agreement",
+              "Id::decode hands its argument to String32::decode as it is",
+              "Id::decode rewrites the text before decoding it (%s): text that is not what Display prints then parses to an id it does not encode "
+              "(e.g. a stripped leading `z` is the base58 digit 57)" % (", ".join(drew) or "argument is not the caller's text"), dec.site())
     tb = one(F, "ToBase58", "to_base58")
     ok = False
     for c in tb.calls:
